@@ -227,7 +227,7 @@ var tokenForms = []string{"new-client", "anonymous:dev-1", "anonymous:", "", "NE
 // kind 0 = unknown client id (ClientID != 0, not registered); kind 1 / 2 = ClientID == 0 with token form x, credential
 // generation succeeding / failing; kinds 3, 4, 5 = the registered client on the LONG-LIVED connection x of this case:
 // 3 = phase 1 (no response: a challenge is issued and kept on the connection), 4 / 5 = phase 2 with a wrong / the
-// correct HMAC of whatever challenge is pending on that connection
+// correct HMAC of whatever challenge is pending on that connection; kind 6 = unknown non-zero client id + token form x
 func (g *rig) handshake(ip string, arg int) int {
 	kind, x := arg%10, arg/10
 	conn := &fakeConn{addr: &net.TCPAddr{IP: net.ParseIP(ip), Port: 40000}}
@@ -241,6 +241,10 @@ func (g *rig) handshake(ip string, arg int) int {
 	case 2:
 		req.Token = tokenForms[x%len(tokenForms)]
 		atomic.StoreInt32(&g.cloud.genFail, 1)
+	case 6: // an unknown NON-ZERO client id sent together with token form x (stale id left in a client's configuration)
+		req.ClientID = 4242
+		req.Token = tokenForms[x%len(tokenForms)]
+		atomic.StoreInt32(&g.cloud.genFail, 0)
 	default:
 		if c, ok := g.conns[x]; ok {
 			conn = c
@@ -628,6 +632,66 @@ func runCrowd(c *caseIn) *caseOut {
 	return out
 }
 
+// holdStore delays the FIRST Set of every key until a later Set of the same key has completed (300 ms at most, so
+// code that writes synchronously is merely slowed down): two writes of one key issued in call order by concurrent
+// writers land in the opposite order
+type holdStore struct {
+	storage.Storage
+	storage.ListStore
+	mu    sync.Mutex
+	first map[string]chan struct{}
+}
+
+func (h *holdStore) Set(key string, value any, ttl time.Duration) error {
+	h.mu.Lock()
+	ch, seen := h.first[key]
+	if !seen {
+		ch = make(chan struct{})
+		h.first[key] = ch
+	}
+	h.mu.Unlock()
+	if !seen {
+		select {
+		case <-ch:
+		case <-time.After(300 * time.Millisecond):
+		}
+		return h.Storage.Set(key, value, ttl)
+	}
+	err := h.Storage.Set(key, value, ttl)
+	select {
+	case <-ch:
+	default:
+		close(ch)
+	}
+	return err
+}
+
+// AddToBlacklist(ip, short) then AddToBlacklist(ip, permanent), the store delaying the first write; once the short
+// period is over a manager built from the same store must still refuse the address
+func runStoreOrder(c *caseIn) *caseOut {
+	out := &caseOut{Kind: "storeorder", Trials: c.Trials}
+	for t := 0; t < c.Trials; t++ {
+		ctx, cancel := context.WithCancel(context.Background())
+		mem := storage.NewMemoryStorage(ctx)
+		hs := &holdStore{Storage: mem, ListStore: mem.(storage.ListStore), first: map[string]chan struct{}{}}
+		m := security.NewIPManager(hs, ctx)
+		ip := fmt.Sprintf("203.0.113.%d", 10+t)
+		must(m.AddToBlacklist(ip, 120*time.Millisecond, "temporary", "admin"))
+		time.Sleep(3 * time.Millisecond) // a write started by the first call is under way before the second call
+		must(m.AddToBlacklist(ip, 0, "permanent", "admin"))
+		time.Sleep(450 * time.Millisecond) // the temporary period (and any delayed write) is over
+		if ok, _ := m.IsAllowed(ip); ok {
+			out.PreNotExpired++ // the live manager itself lost the permanent entry: never expected
+		}
+		after := security.NewIPManager(hs, ctx)
+		if ok, _ := after.IsAllowed(ip); ok {
+			out.Lost++
+		}
+		cancel()
+	}
+	return out
+}
+
 // strAddr is what adapters that do not hand out *net.TCPAddr / *net.UDPAddr give to the handler: only String()
 type strAddr string
 
@@ -711,6 +775,8 @@ func runCase(raw []byte) *caseOut {
 		return runShadow(&c)
 	case "crowd":
 		return runCrowd(&c)
+	case "storeorder":
+		return runStoreOrder(&c)
 	case "sweeprace":
 		return runSweepRace(&c)
 	case "addr":
